@@ -42,7 +42,7 @@ def castersOp : Handler := fun args =>
   Json.mkObj [
     ("int", match parseInt s with | some i => Json.str (ToString.toString i) | none => Json.null),
     ("bool", match parseBool s with | some b => Json.bool b | none => Json.null),
-    ("yamloct", match yamlLegacyOctal s with | some i => Json.str (ToString.toString i) | none => Json.null)]
+    ("yamlint", match yamlInt s with | some i => Json.str (ToString.toString i) | none => Json.null)]
 
 def handlers : List (String × Handler) := [("interpolate", interpolateOp), ("c08casters", castersOp)]
 
